@@ -73,9 +73,9 @@ class StopWorld(World):
         rng = mk_rng(self.name, seed)
         g = common.np_gen(rng)
         kinds = list(KINDS)
-        if tier == "thorough":
-            kinds += ["mri"]
         kind = rng.choice(kinds)
+        if rng.random() < (0.08 if tier == "thorough" else 0.04):
+            kind = "mri"
         cplx = rng.random() < 0.4
         n = rng.randint(1, 5)
         m = rng.randint(n, 6)
@@ -489,7 +489,15 @@ class StopWorld(World):
                 guard += 1
                 if guard > T.max_iter + 3:
                     break
-        return digests, sols
+            tw_out = None
+            if T.app is not None and plan.get("style") == "run":
+                try:
+                    o = T.app._output()
+                    outs = o if isinstance(o, (tuple, list)) else [o]
+                    tw_out = [np.array(a, copy=True) for a in outs if isinstance(a, (np.ndarray, float, int, np.generic))]
+                except Exception as e:
+                    tw_out = ("raised", type(e).__name__)
+        return digests, sols, tw_out
 
     def _run(self, plan, res):
         import tqdm.std
@@ -507,11 +515,11 @@ class StopWorld(World):
         clock = SimClock(clock_spec)
         stream = SimStream(sfaults)
         try:
-            tw_digests, tw_sols = self._twin(plan, stats)
+            tw_digests, tw_sols, tw_out = self._twin(plan, stats)
         except Discard:
             raise
         except Exception as e:  # library raised while building/looping the twin
-            tw_digests, tw_sols = None, None
+            tw_digests, tw_sols, tw_out = None, None, None
             stats["probes.twin_raised"] += 1
             twin_exc = e
         acts = []
@@ -634,6 +642,12 @@ class StopWorld(World):
                     dev = max(float(np.max(np.abs(np.asarray(a, dtype=np.complex128) - np.asarray(b, dtype=np.complex128))))
                               if np.size(a) else 0.0 for a, b in zip(s1, s0))
                     worst = max(worst, dev)
+                    if not np.isfinite(dev) and j > 0:
+                        # the first further update left the solution unchanged; what a solver
+                        # does when it is driven on and on past an exact stop (0/0 in CG's beta
+                        # once <r, r> has underflowed) is not covered by the statement
+                        stats["probes.nonfinite_when_driven_past_exact_stop"] += 1
+                        break
                     if not np.isfinite(dev) or dev > 1e-12 * S.scale + 1e-9 * max(float(np.max(np.abs(b))) if np.size(b) else 0 for b in s0):
                         self._flag(res, "early_stop_not_fixed_point", type(alg).__name__, step,
                                    {"stopped_at_iter": st["first_done"], "max_iter": mi, "extra_updates": j + 1,
@@ -691,8 +705,11 @@ class StopWorld(World):
                             injected = type(e).__name__
                             out = None
                         else:
-                            raise Violation("library_raised", site + ".run", step,
-                                            {"type": type(e).__name__, "msg": str(e)[:300]})
+                            rs = site + ".run" + ("[max_iter=0]" if mi == 0 else "")
+                            self._flag(res, "library_raised", rs, step,
+                                       {"type": type(e).__name__, "msg": str(e)[:300]})
+                            injected = "known"
+                            out = None
                     finally:
                         del alg.update
                     st["u"] += counted["n"]
@@ -718,6 +735,15 @@ class StopWorld(World):
                         if st["u"] != len(tw_sols) - 1:
                             self._flag(res, "run_update_count_differs_from_manual_loop", site + ".run", step,
                                        {"run": st["u"], "manual": len(tw_sols) - 1})
+                        elif isinstance(tw_out, list):
+                            # run() must return what the manual loop followed by the app's own
+                            # output step returns
+                            outs = out if isinstance(out, (tuple, list)) else [out]
+                            outs = [a1 for a1 in outs if isinstance(a1, (np.ndarray, float, int, np.generic))]
+                            if len(outs) != len(tw_out) or any(
+                                    codec.bytes_digest(np.asarray(a1)) != codec.bytes_digest(np.asarray(b1))
+                                    for a1, b1 in zip(outs, tw_out)):
+                                self._flag(res, "run_result_differs_from_manual_loop", site + ".run", step, {})
                         else:
                             for a1, b1 in zip(S.solution(), tw_sols[kk]):
                                 if codec.bytes_digest(np.asarray(a1)) != codec.bytes_digest(np.asarray(b1)):
